@@ -25,6 +25,14 @@ KINK_MARGIN = Fraction(1, 8)
 P_SET_SAME = 0.04   # share of hess -> setter -> hess histories on the classes whose cost object is built at construction
 P_SET = 0.04      # share of hess -> setter -> hess histories (storage)
 P_FNX = 0.3       # share of cases from vk/gen_fnx.py (function classes outside the Lean `Fn` embedding: oracle only)
+ND_SHARE = 20     # one dedicated ADevice(f = TemporalVariance) case (n <= 4, strictly positive box) per ND_SHARE cases, appended
+ND_HESS_TOL = 1e-4   # implementation's nd.Hessian vs the analytic Hessian tvarHess (measured worst 2.0e-10 over 7476 generator cases)
+
+
+def tvar_top(case):
+  """the preference function of an fnx case IS TemporalVariance (top level): the one numdifftools-based class with an exact
+  rational model (lean/DK/Model/FnNd.lean `tvarHess`, DK.C01nd.tvar_hess)."""
+  return bool(case.get('fnx')) and case['dev']['prm'].get('fx', {}).get('k') == 'tvar'
 
 
 def fn_kinds(f, acc=None):
@@ -123,6 +131,7 @@ class C14(Prop):
               'DK.Props.C01c': ['DK.C01c.fn_hess', 'DK.C01c.fn_hess_symm'],
               'DK.Props.C01all': ['DK.C01all.leaf_hess'],
               'DK.Props.Link': ['DK.Link.accepted_hess_psd', 'DK.Link.idevice_real_hess_psd']}
+  theorems['DK.Props.C01nd'] = ['DK.C01nd.tvar_hess', 'DK.C01nd.adevice_tvar_hess', 'DK.C01nd.tvar_hess_symm', 'DK.C01nd.tvar_hess_nsd']
   rule = ('random leaf of every shipped class (ADevice x every combinator of functions.py, half of them restricted to the convex family; '
           'IDevice also with non-integer exponents, oracle only) x n in 1..8 plus 5 % from {12,16,24,25,31,48} (..60 thorough; storage / thermal n <= 4) x zero-width slots x '
           'scalar/vector parameters x in-bounds flow x price; non-trivial: n >= 2, a flow strictly inside a non-zero-width slot and a '
@@ -132,6 +141,13 @@ class C14(Prop):
                  'storage / thermal Hessians are numdifftools output: compared at 1e-4 relative, n <= 4, more than 1/8 flow unit away from kinks (measured: numdifftools is off by up to 30 % within 0.07); thermal diagonal only',
                  'T2 hess2.leaf (storage / thermal): numdifftools Hessian vs the analytic second derivative of the model (DK.C14b.sdevice_hess / tdevice_hess) under the same restrictions (1e-4 relative per entry, n <= 4, kink margin 1/8); thermal: only the diagonal is compared (the implementation zeroes the off-diagonals by construction, the analytic ones are not zero)',
                  'DK.C01c.fn_hess / fn_hess_symm (combinator trees) are proved in DK.Props.C01c, whose helper names clash with this module\'s: audited by C01']
+  rule = rule + ('; plus 1 in %d: ADevice(f = TemporalVariance(c)), n 1..4, strictly positive box, tied by T2 (fnnd.hess) to the exact analytic Hessian' % ND_SHARE)
+  assumptions = assumptions + [
+    'T2 fnnd.hess (ADevice(f=TemporalVariance(c)), n <= 4, strictly positive box, flows more than 1/4 from 0): the implementation\'s nd.Hessian vs the '
+    'analytic Hessian tvarHess = -2c (k - com)(l - com) / sum r (DK.C01nd.tvar_hess: Jacobian of the analytic gradient; symmetric; negative '
+    'semidefinite, so no PSD claim) at 1e-4 relative per entry; measured numdifftools deviation on 7476 generator cases (n <= 5): worst 2.0e-10; '
+    'nd.Hessian probes up to +-4 flow units away and raises ZeroDivisionError on a zero total flow (open finding, 4.7 % of the cases): skipped, not compared',
+    'CobbDouglas / InformationEntropy Hessians: no analytic model; second-difference oracle only']
 
   def __init__(self):
     self.stat = {}
@@ -198,7 +214,38 @@ class C14(Prop):
         ij = [[i, i] for i in rng.sample(range(n), 4)] + [sorted(rng.sample(range(n), 2)) for _ in range(8)]
       case['ij'] = ij
       out.append(case)
+    for _ in range(count // ND_SHARE):      # appended after the existing stream: the existing cases of a seed are unchanged
+      out.append(self.tvar_case(rng, tier))
     return out
+
+  def tvar_case(self, rng, tier):
+    """ADevice(f = TemporalVariance(c)) on a strictly positive box, n <= 4: T2 `fnnd.hess` plus the oracle every fnx case gets."""
+    n = rng.randint(1, 4)
+    lb = [dy(rng, Fraction(1, 2), 2) for _ in range(n)]; hb = [a + dy(rng, 0, 3) for a in lb]
+    same = len(set(lb)) == 1 and len(set(hb)) == 1
+    d = {'cls': 'ADevice', 'n': n, 'lb': [fs(x) for x in lb], 'hb': [fs(x) for x in hb], 'cbs': [],
+         'prm': {'fx': {'k': 'tvar', 'c': fs(dy(rng, Fraction(1, 4), 2))}},
+         '_py': {'bform': rng.choice((['pair'] if n != 2 else []) + ['table'] + (['scalar'] if same else [])), 'cform': None}}
+    s = gen.gen_flow(rng, lb, hb, rng.choice(['interior', 'interior', 'mixed', 'upper', 'lower']))
+    return {'dev': d, 's': [fs(x) for x in s], 'p': gen.gen_price(rng, n), '_shape': rng.choice(['flat', 'flat', 'row']), 'fnx': True,
+            'ij': [[i, j] for i in range(n) for j in range(i, n)]}
+
+  def tvar_ops(self, case):
+    """T2: the implementation's numerically differentiated Hessian (nd.Hessian) vs the model's ANALYTIC one (`tvarHess`)."""
+    d = case['dev']
+    if d['n'] > 4 or not all(F(x) > 0 for x in d['lb']) or not away_from_kinks(case):
+      self.bump('fnnd.hess: n > 4 / not on a strictly positive box / within 1/4 of zero (not compared)')
+      return []
+    dev = self.build_dev(case)
+    s = flow_arr(case); p = build.price(case['p'])
+    try:
+      H = dev.hess(s, p)
+    except ZeroDivisionError:
+      self.bump('fnnd.hess: numdifftools probed through a zero total flow (open finding): skipped')
+      return []
+    self.bump('fnnd.hess: TemporalVariance numeric Hessian vs analytic compared')
+    return [Op({'op': 'fnnd.hess', 'f': d['prm']['fx'], 'n': d['n'], 's': case['s']}, lambda: H, ND_HESS_TOL,
+               'numeric Hessian vs analytic (TemporalVariance)')]
 
   def corpus(self):
     # witness of the open TemporalVariance finding (numdifftools probes through a zero normalising sum): runs first on every seed
@@ -262,6 +309,8 @@ class C14(Prop):
   def ops(self, case):
     case = self.effective(case)
     d = case['dev']
+    if tvar_top(case):
+      return self.tvar_ops(case)     # TemporalVariance has an exact rational model of its analytic Hessian
     if case.get('fnx') or case.get('set_same'):
       return []          # no model side: the Lean `Fn` embedding has no constructor for these classes / which parameters apply is open
     if not self.t2_able(d):
